@@ -122,7 +122,8 @@ def run(ctx):
         ctx.ob("R2", "in-loop-finished_dir", len(loop_fd) == 1 and all(C.base(x) == "matches" for x in gg.succ(loop_fd[0])),
                "leaving a directory must be reported inside the loop before the entry that left it is evaluated; in-loop finished_dir nodes %s successors %s" % (loop_fd, [gg.succ(n) for n in loop_fd]), fn=pf, how="event graph")
         # dir operands: the previous parent (Option::take of current_dir), guard: parent differs
-        cur = C.find_local(pf, "current_dir", ty="std::option::Option<std::path::PathBuf>")
+        cur = C.find_local(pf, "current_dir", ty="std::option::Option<std::path::PathBuf>",
+                           pred=lambda fn_, l_: any(tt.j.get("callee_name") == "take" and tt.args and prim.user_local_behind(fn_, tt.args[0]) == l_ for _, tt in fn_.calls()))
         for b, t in pf.calls():
             r = C.walk_role(t)
             if r == "finished_dir":
